@@ -223,6 +223,125 @@ def gen_cases(ctx):
     return cases, dist
 
 
+
+# ---------------------------------------------------------------------------
+# geometric tie: conforming box decompositions, automatch, assemble_system, BCs
+# ---------------------------------------------------------------------------
+
+def gen_geo_cases(ctx):
+    rng = ctx.rng
+    cases = []
+    n = 30 if ctx.tier == 'thorough' else 8
+    for c in range(n):
+        dim = 2 if c % 4 != 3 else 3
+        cuts = []
+        for a in range(dim):
+            k = rng.choice([1, 2, 2, 3]) if dim == 2 else rng.choice([1, 2])
+            xs = sorted(rng.sample([0.25, 0.5, 0.75, 1.25], k - 1)) if k > 1 else []
+            cuts.append([0.0] + xs + [1.5])
+        if all(len(cu) == 2 for cu in cuts):
+            cuts[0] = [0.0, 0.5, 1.5]
+        nsp = [[rng.randint(1, 3) for _ in range(len(cu) - 1)] for cu in cuts]   # spans per slab, per physical axis
+        p = rng.randint(1, 3)
+        patches = []
+        cells = []
+        import itertools as it
+        for ij in it.product(*[range(len(cu) - 1) for cu in cuts]):
+            lo = [cuts[a][ij[a]] for a in range(dim)]
+            hi = [cuts[a][ij[a] + 1] for a in range(dim)]
+            flip = [rng.random() < 0.3 for _ in range(dim)]
+            # kvs are ordered (last physical axis, ..., x): parameter axis k <-> physical axis dim-1-k
+            nspans = [nsp[dim - 1 - k][ij[dim - 1 - k]] for k in range(dim)]
+            patches.append({'lo': lo, 'hi': hi, 'flip': flip, 'nspans': nspans})
+            cells.append(ij)
+        order = list(range(len(patches)))
+        rng.shuffle(order)
+        patches = [patches[i] for i in order]
+        cells = [cells[i] for i in order]
+        outer = []
+        for pi, (pt, ij) in enumerate(zip(patches, cells)):
+            for a in range(dim):
+                for side in (0, 1):
+                    if (side == 0 and ij[a] == 0) or (side == 1 and ij[a] == len(cuts[a]) - 2):
+                        if rng.random() < 0.6:
+                            outer.append([pi, dim - 1 - a, side ^ int(pt['flip'][a])])
+        cases.append({'dim': dim, 'p': p, 'patches': patches, 'cells': [list(c_) for c_ in cells], 'cuts': cuts,
+                      'affine': [rng.randint(-3, 3) for _ in range(dim + 1)], 'outer_faces': outer})
+    return cases
+
+
+def expected_interfaces(case):
+    dim = case['dim']
+    exp = set()
+    P = case['patches']
+    C = case['cells']
+    for i in range(len(P)):
+        for j in range(i + 1, len(P)):
+            d = [C[j][a] - C[i][a] for a in range(dim)]
+            nz = [a for a in range(dim) if d[a] != 0]
+            if len(nz) != 1 or abs(d[nz[0]]) != 1:
+                continue
+            a = nz[0]
+            side_i = 1 if d[a] == 1 else 0          # physical side of patch i facing j
+            bd1 = (dim - 1 - a, side_i ^ int(P[i]['flip'][a]))
+            bd2 = (dim - 1 - a, (1 - side_i) ^ int(P[j]['flip'][a]))
+            # remaining parameter axes in increasing parameter-axis order
+            rem = [k for k in range(dim) if k != dim - 1 - a]
+            fl = tuple(bool(P[i]['flip'][dim - 1 - k]) != bool(P[j]['flip'][dim - 1 - k]) for k in rem)
+            exp.add((i, bd1, j, bd2, fl))
+    return exp
+
+
+def check_geo_case(case, r):
+    if r['status'] != 'Ok':
+        return ('geo-raises-' + r['status'], 'multipatch over a conforming box decomposition raised %s: %s' % (r['status'], r.get('msg')))
+    dim = case['dim']
+    got = {(a, tuple(b), c, tuple(d), tuple(e)) for (a, b, c, d, e) in r['interfaces']}
+    exp = expected_interfaces(case)
+    if got != exp:
+        return ('detect-interfaces', 'detect_interfaces found %s, geometrically coinciding faces are %s' % (
+            sorted(got ^ exp)[:4], 'the symmetric difference shown'))
+    if not r['connected']:
+        return ('connected', 'patch graph of a connected decomposition reported as not connected')
+    # two local dofs get the same global index iff they sit at the same physical location
+    clusters = []            # (representative location, global index); tolerance-based, no grid rounding
+    by_glob = {}
+    for p, (locs, idx) in enumerate(zip(r['locs'], r['idx'])):
+        for i, (x, g) in enumerate(zip(locs, idx)):
+            hit = None
+            for (y, gy) in clusters:
+                if max(abs(a - b) for a, b in zip(x, y)) < 1e-9:
+                    hit = (y, gy)
+                    break
+            if hit is None:
+                clusters.append((x, g))
+                if g in by_glob:
+                    return ('geo-class-merged', 'dofs at different physical points %s and %s share global index %d' % (x, by_glob[g], g))
+                by_glob[g] = x
+            elif hit[1] != g:
+                return ('geo-class-split', 'dofs at the same physical point %s have different global indices %d, %d' % (x, hit[1], g))
+    if sorted(by_glob) != list(range(r['numdofs'])):
+        return ('geo-not-gapfree', 'numbering not onto range(numdofs)')
+    area = 1.5 ** dim
+    tol = 1e-11 * max(1.0, area)
+    if r['mass_consistency'] > tol or abs(r['mass_sum'] - area) > tol or r['mass_sym'] > tol:
+        return ('assemble-system', 'assemble_system: M*1 - b = %g, sum(M) - |domain| = %g' % (r['mass_consistency'], r['mass_sum'] - area))
+    if 'bc_idx' in r:
+        w = case['affine']
+        exp_idx = set()
+        for (p, ax, sd) in case['outer_faces']:
+            shape = [n + case['p'] for n in case['patches'][p]['nspans']]
+            for li in face_dofs(shape, ax, sd, None):
+                exp_idx.add(r['idx'][p][li])
+        if sorted(exp_idx) != r['bc_idx']:
+            return ('mp-bc-indices', 'Multipatch.compute_dirichlet_bcs indices are not the glued indices of the face dofs')
+        for g, v in zip(r['bc_idx'], r['bc_val']):
+            x = by_glob[g]
+            ref = w[0] + sum(wi * xi for wi, xi in zip(w[1:], x))
+            if abs(v - ref) > 1e-9 * (1 + abs(ref)):
+                return ('mp-bc-values', 'Dirichlet value at glued dof %d is %r, the affine boundary function gives %r' % (g, v, ref))
+    return None
+
 # ---------------------------------------------------------------------------
 # Coq case files
 # ---------------------------------------------------------------------------
@@ -304,6 +423,12 @@ def run(ctx):
         for b in badidx:
             disagreements.append(chunk[b])
     ctx.cov['disagreements_checked'] = len(disagreements)
+    # harness self-test: a perturbed expectation must be flagged by the same comparison
+    if okcases:
+        _, c0, r0 = okcases[len(okcases) // 2]
+        r1 = dict(r0, numdofs=r0['numdofs'] + 1)
+        ctx.selftest('C14_selftest', HEADER + 'Definition cases := [\n' + coq_case(c0, r0) + ';\n' + coq_case(c0, r1)
+                     + '].\nEval vm_compute in bad 0 cases.\n')
     for (k, c, r) in disagreements[:3]:
         # model and implementation differ although the property (checked above) may hold:
         # the tie is broken; report with the history as replay
@@ -313,6 +438,17 @@ def run(ctx):
                    'model and implementation number the dofs differently' + (': ' + bad[1] if bad else
                    ' (closure property still holds on this history: the numbering convention changed)'),
                    {'shapes': c['shapes'], 'joins': c['joins'], 'impl': r}, found_input=bool(bad))
+    # geometric tie (automatch, assemble_system, multipatch BCs) on the implementation
+    gcases = gen_geo_cases(ctx)
+    gres = ctx.impl.run('harness/impl/c14_geo_driver.py', {'cases': gcases})['results']
+    for gc, gr in zip(gcases, gres):
+        ctx.count(('geo', gc['cuts'], gc['patches']), nontrivial=True)
+        bad = check_geo_case(gc, gr)
+        if bad:
+            ctx.report('impl:%s:%dd' % (bad[0], gc['dim']), bad[1],
+                       {'case': gc, 'impl': {k: v for k, v in gr.items() if k not in ('locs',)},
+                        'how': 'patches = boxes [lo,hi] (optionally reversed parametrisation), Multipatch(patches, automatch=True)'})
+    ctx.cov['geometric_cases'] = len(gcases)
     ctx.cov['rule'] = ('join histories over patch complexes (grids, rings, 2x2x2, random faces/flips/repetitions); '
                        'non-trivial = at least one join; distinct by (shapes, join list)')
     ctx.cov['input_distribution'] = dist
